@@ -40,4 +40,25 @@ PROPS = {
         "trusted_base": COMMON_TB + ["modelled: SymbolNode/SymbolRootNode as a finite map path -> (valid, tokenType); the per-node CharReferenceMap of children is abstracted to map lookup (its behaviour is C17); symbol runes are assumed in 1..U+FFFE (Add panics above, drops U+0000 from the text)"],
         "assumptions": COMMON_ASSUME + ["registered token types differ from Unknown (with Unknown the first-rune node is re-typed by a later registration: shown necessary by the proof, documented in DESIGN.md)"],
     },
+    "C04": {
+        "module": "Verif.Props.C04",
+        "rule": "exhaustive: every string of length <= 3 (thorough 4) over the 24-character class alphabet (one representative per character class that selects a different state or branch: letter, digit, . - / * e + both quotes < > = ! { } # , space CR LF Latin-1 BMP astral) and every string of length 4 (thorough 5) over a 16-character sub-alphabet, for the generic, expression, mustache and csv tokenizers with all options off; plus random character soup and kind-specific lexeme soup up to length 60 for 9 tokenizer configurations (6 csv separator/quote configurations). Oracle: values concatenate to the input, no empty token but the final Eof. Non-trivial = input of length >= 2.",
+        "explanation": "Theorems (generic, expression and every csv configuration): C04_lossless — with all options off the token values concatenate to exactly the input, the last token is the end-of-input marker and every other token is non-empty; rawSpec_lossless — the segmentation is contiguous. They rest on per-state segment lemmas (each state moves exactly a contiguous slice across the cursor, incl. the number/comment fall-back paths and the EOF slot) and on RawContract for the four configurations. The mustache override is covered by the correspondence stream and the direct oracle only (stated in DESIGN.md).",
+        "trusted_base": COMMON_TB + ["modelled: AbstractTokenizer.ReadNextToken/TokenizeBuffer, all generic/expression/csv/mustache states, the four tokenizer constructors (dispatch tables written out in Model/Tokenizer.lean and checked against the code by the differential run)"],
+        "assumptions": COMMON_ASSUME + ["the theorem for the mustache tokenizer is not proved (its ReadNextToken override is modelled and compared, not covered by C04_lossless)"],
+    },
+    "C12": {
+        "module": "Verif.Props.C12",
+        "rule": "exhaustive: every string of length <= 3 (thorough 4) over a 13-character alphabet containing LF and CR x 7 option sets x 4 tokenizers; random multi-line character soup and lexeme soup up to length 50 x all 128 option sets. Oracle: every token reports the forward-scan line/column of the first character of the raw token it stems from (start offsets obtained by aligning with the implementation's own option-free stream); the Eof token sits one column past the last character. Non-trivial = multi-line input with more than two raw tokens.",
+        "explanation": "Theorems (generic, expression, every csv configuration, all 128 option sets): C12_positions — every token of tokenize cfg o c is the Eof token (at line of the whole input, column+1) or reports posOf c r.start = lcUpTo c (r.start+1) for a whole raw token r of the input; C12_eof_position, C12_eof_last. Built on C11 (line/column = function of the position), the per-state position lemmas and the factorisation of C15.",
+        "trusted_base": COMMON_TB + ["modelled: as for C04; positions are those of the Scanner model proved position-only in C11"],
+        "assumptions": COMMON_ASSUME + ["mustache tokenizer: correspondence and oracle only"],
+    },
+    "C15": {
+        "module": "Verif.Props.C15",
+        "rule": "exhaustive: every string of length <= 2 (thorough 3) over the 24-character class alphabet x all 128 option sets x 4 tokenizers; random character soup and kind-specific lexeme soup (multi-character symbols, comments, quoted literals, mustache tags, unknown characters) up to length 40 x all 128 option sets. Oracle: the stream under option set o equals the implementation's own option-free stream with whole tokens dropped/rewritten (using the implementation's own DecodeString), plus the per-option postconditions. Non-trivial = some option on and more than two raw tokens.",
+        "explanation": "Theorems (generic, expression, every csv configuration): C15_options_factor — for all 128 option sets and every input, tokenize cfg o c = postSpec applied to the option-free segmentation rawSpec (+ Eof unless skipEof): enabling an option never changes how the text is cut; corollaries no_unknown, no_comment, no_eof_when_skipEof, no_adjacent_ws, ws_single_space, numbers_unified, off_untouched. The mustache tokenizer (mode tracking repaired in D23) is covered by the correspondence stream and oracle only.",
+        "trusted_base": COMMON_TB + ["modelled: as for C04, including the seven options, HasNextToken/NextToken caching and LastTokenType"],
+        "assumptions": COMMON_ASSUME + ["mustache tokenizer: correspondence and oracle only"],
+    },
 }
